@@ -22,7 +22,7 @@ TITLE = ("Equality of the S-box variants across configurations is not decided. D
          "in every configuration; (R4) every other property's rules are run in every configuration "
          "and reported under their own ids. (R5) every SKINNY block function has, as a GF(2) affine map, the linear layer of the shipped configuration; (R6) one round of every tweakey "
          "schedule loop (TK permutation, LFSR2/LFSR3, round-constant LFSR, what is xored into the schedule word) is the same "
-         "GF(2) affine map as in the shipped configuration.")
+         "GF(2) affine map as in the shipped configuration. (R7) every site that XORs the Mantis reflection constant into k1 applies, byte for byte, the constant of the shipped configuration.")
 
 
 def canon_loc(prog, loc):
@@ -261,6 +261,27 @@ def run(ctx, rep):
             else:
                 rep.ok("C12.R2", inst, fsite(f), "same guards, return constants and read/written bytes as in the shipped configuration", cfg=cn)
         ctx.release(cfg)
+    # ---- R7: the constants XORed in place into Mantis' k1 (alpha) are the same bytes in every configuration
+    from .c03 import k1_xor_maps
+    refk = {k: v[0] for k, v in k1_xor_maps(ctx.prog(None), ctx.an(None)).items()}
+    refset = set(refk.values())
+    nk = 0
+    for cfg in cfgs:
+        if cfg is None:
+            continue
+        cn = config_name(cfg)
+        cur = k1_xor_maps(ctx.prog(cfg), ctx.an(cfg))
+        for key, (bm, site) in sorted(cur.items()):
+            fobj = ctx.prog(cfg).funcs[key]
+            nk += 1
+            want = refk.get(key)
+            if (want is not None and bm == want) or (want is None and bm in refset):
+                rep.ok("C12.R7", construct(fobj) + ":alpha", fobj.loc(site), "the reflection constant is applied as the same eight bytes as in the shipped configuration", cfg=cn)
+            else:
+                rep.violation("C12.R7", construct(fobj) + ":alpha", fobj.loc(site), "in this configuration the constant XORed into k1 is the byte string %s, the shipped configuration applies %s: keys and tweaks set here give different ciphertexts than the default build" %
+                              (["%02x" % b if b is not None else "--" for b in bm], sorted(["%02x" % b if b is not None else "--" for b in w] for w in refset)[:1]), cfg=cn)
+        ctx.release(cfg)
+    rep.floor("C12.R7", "sites applying the reflection constant, over the non-default configurations", nk, 4)
     from . import affine_rules
     naff = affine_rules.check_configs(ctx, rep, cfgs)
     nsch = affine_rules.check_sched_configs(ctx, rep, cfgs)
